@@ -1,4 +1,6 @@
+#![allow(unexpected_cfgs)]
 mod c03;
+mod hseam;
 mod c23;
 mod c26;
 mod checks;
@@ -26,6 +28,8 @@ use std::sync::atomic::{AtomicU64, Ordering};
 use std::sync::Mutex;
 
 pub const DEFAULT_SEED: u64 = 20260921;
+
+static XP_SUMMARY: Mutex<Option<serde_json::Value>> = Mutex::new(None);
 
 /// Private copy of the original stdout: the library prints on some paths, so fd 1 is pointed at
 /// /dev/null and report lines go through this descriptor.
@@ -249,6 +253,10 @@ fn tally(st: &mut Stats, sc: &Scenario, res: &exec::RunResult, j: &Judged) {
         }
         r
     });
+    hit(
+        "atomic_global_access_in_base",
+        sc.base.funcs.iter().any(|f| f.body.iter().any(|i| matches!(i, ins::Ins::GlobalAtomic(..)))),
+    );
     hit("special_mode_injected", m.funcs.iter().any(|f| matches!(&f.kind, model::MFK::Local(l) if l.has_special())));
     hit("encode_panicked", oracle::panic_of(res).is_some());
     hit("output_produced", oracle::first_bytes(res).is_some());
@@ -375,10 +383,22 @@ fn check_cmd(id: &str, tier: &str, verif_seed: u64) -> i32 {
     };
     let runs = std::env::var("VERIF_RUNS").ok().and_then(|s| s.parse().ok()).unwrap_or(if tier == "thorough" { def.thorough_runs } else { def.quick_runs });
     let hs = if tier == "thorough" { def.hash_seeds.1 } else { def.hash_seeds.0 };
+    // sensitivity experiments only: VERIF_HASH_SEEDS=1 switches the in-process seeds off so that the
+    // cross-process phase of C04 can be shown to detect on its own
+    let hs = std::env::var("VERIF_HASH_SEEDS").ok().and_then(|s| s.parse().ok()).unwrap_or(hs);
     let workers: usize = std::env::var("VERIF_WORKERS").ok().and_then(|s| s.parse().ok()).unwrap_or(16);
     let next = AtomicU64::new(0);
     let stats = Mutex::new(Stats::default());
     let violations: Mutex<Vec<Violation>> = Mutex::new(vec![]);
+    // C04 cross-process phase: the first xp_runs scenarios are also executed by xp_procs fresh processes
+    // of the unhooked build
+    let (xp_runs, xp_procs): (u64, u32) = if id == "C04" {
+        let r = std::env::var("VERIF_XPROC_RUNS").ok().and_then(|s| s.parse().ok()).unwrap_or(if tier == "thorough" { 100_000 } else { 8_000 });
+        (r.min(runs), if tier == "thorough" { 6 } else { 3 })
+    } else {
+        (0, 0)
+    };
+    let xp_digests: Mutex<Vec<(u64, u64)>> = Mutex::new(vec![]);
     std::thread::scope(|s| {
         for _ in 0..workers {
             s.spawn(|| {
@@ -399,6 +419,9 @@ fn check_cmd(id: &str, tier: &str, verif_seed: u64) -> i32 {
                         Ok(sc) => {
                             let (j, res, eff) = judge(def.id, &sc, hs);
                             tally(&mut local, &eff, &res, &j);
+                            if def.id == "C04" && n < xp_runs {
+                                xp_digests.lock().unwrap().push((n, checks::outcome_digest(&res)));
+                            }
                             if n < 3 {
                                 local.samples.push(sample_of(&eff));
                             }
@@ -419,8 +442,68 @@ fn check_cmd(id: &str, tier: &str, verif_seed: u64) -> i32 {
             });
         }
     });
-    let st = stats.into_inner().unwrap();
+    let mut st = stats.into_inner().unwrap();
     let mut vs = violations.into_inner().unwrap();
+    let mut xp_summary = serde_json::Value::Null;
+    if xp_runs > 0 {
+        let mine: BTreeMap<u64, u64> = xp_digests.into_inner().unwrap().into_iter().collect();
+        let bin = checks::unhooked_bin();
+        let mut differing: BTreeSet<u64> = BTreeSet::new();
+        let mut compared = 0u64;
+        for p in 0..xp_procs {
+            let out = std::process::Command::new(&bin).args(["c04-proc", &verif_seed.to_string(), &xp_runs.to_string(), &workers.to_string()]).output();
+            let out = match out {
+                Ok(o) if o.status.success() => o,
+                Ok(o) => {
+                    st.harness_errors.push(format!("unhooked process {p} exited with {:?}: {}", o.status.code(), String::from_utf8_lossy(&o.stderr)));
+                    break;
+                }
+                Err(e) => {
+                    st.harness_errors.push(format!("cannot run the unhooked simulator {bin}: {e} (./check --build builds it)"));
+                    break;
+                }
+            };
+            let mut lines = 0u64;
+            for l in String::from_utf8_lossy(&out.stdout).lines() {
+                let mut it = l.split(' ');
+                let (Some(n), Some(d)) = (it.next().and_then(|x| x.parse::<u64>().ok()), it.next()) else { continue };
+                lines += 1;
+                match mine.get(&n) {
+                    Some(h) if format!("{:016x}", h) == d => {}
+                    Some(_) => {
+                        differing.insert(n);
+                    }
+                    None => {}
+                }
+            }
+            if lines != xp_runs {
+                st.harness_errors.push(format!("unhooked process {p} reported {lines} of {xp_runs} runs"));
+                break;
+            }
+            compared += lines;
+        }
+        *st.faults.entry("fresh_process_std_hash_keys".into()).or_default() += compared;
+        for n in &differing {
+            if vs.iter().any(|v| v.run_no == *n) || vs.len() >= 400 {
+                continue;
+            }
+            if let Ok(mut sc) = gen_for(&def, verif_seed, *n) {
+                sc.xproc = 12;
+                vs.push(Violation {
+                    run_no: *n,
+                    run_seed: sc.seed,
+                    scenario: sc,
+                    owned: vec![Mismatch::new("nondeterministic_bytes", "process", format!("run {n}: a fresh process of the unhooked build produced different output than the hooked seed-0 execution"))],
+                });
+            }
+        }
+        xp_summary = serde_json::json!({
+            "unhooked_binary": bin, "processes": xp_procs, "scenarios_per_process": xp_runs,
+            "executions_compared": compared, "scenarios_differing": differing.len(),
+            "what": "the first scenarios_per_process scenarios re-executed by fresh OS processes of the simulator built WITHOUT --cfg wirm_verif (shipped library code, std RandomState keys per process and thread); every outcome must equal the hooked seed-0 outcome",
+        });
+    }
+    XP_SUMMARY.lock().unwrap().replace(xp_summary);
     vs.sort_by_key(|v| v.run_no);
     if !st.gen_errors.is_empty() || !st.harness_errors.is_empty() {
         for e in st.gen_errors.iter().chain(st.harness_errors.iter()) {
@@ -591,6 +674,7 @@ fn write_evidence(
             "op_kinds_applied": st.op_kinds,
             "hash_seeds_per_scenario": hs,
             "hash_maps_created": st.hash_maps,
+            "cross_process": XP_SUMMARY.lock().unwrap().clone().unwrap_or(serde_json::Value::Null),
             "profiles": if id == "C26" { vec!["component"] } else if def.profiles.is_empty() { vec![execcheck::exec_profile(id).name] } else { def.profiles.iter().map(|p| p.name).collect::<Vec<_>>() },
             "components": {
                 "real": ["wirm (all of /repo/src built from the current working tree with --cfg wirm_verif)", "wasmparser 0.235 / wasm-encoder 0.235 as linked by /repo", "kernel file errors for emit_wasm"],
@@ -792,6 +876,12 @@ fn main() {
                 check_cmd(&id, &tier, seed)
             }
         }
+        Some("c04-proc") => c04_proc_cmd(
+            args.get(2).and_then(|s| s.parse().ok()).unwrap_or(seed),
+            args.get(3).and_then(|s| s.parse().ok()).unwrap_or(1000),
+            args.get(4).and_then(|s| s.parse().ok()).unwrap_or(16),
+        ),
+        Some("c04-one") => c04_one_cmd(args.get(2).map(|s| s.as_str()).unwrap_or("")),
         Some("c03-worker") => c03::worker_cmd(&args),
         Some("c03-one") => c03::one_cmd(args.get(2).map(|s| s.as_str()).unwrap_or("")),
         Some("replay") => replay_cmd(args.get(2).map(|s| s.as_str()).unwrap_or("")),
@@ -806,6 +896,69 @@ fn main() {
     };
     let _ = std::io::stderr().flush();
     std::process::exit(code);
+}
+
+/// `sim c04-proc <verif seed> <count> <workers>`: prints `<run no> <outcome digest>` for the first
+/// `count` C04 scenarios. Run from the *unhooked* build by the C04 cross-process phase: the library is
+/// then the shipped code with std's per-process, per-thread hash keys.
+fn c04_proc_cmd(verif_seed: u64, count: u64, workers: usize) -> i32 {
+    let def = check_def("C04").unwrap();
+    let next = AtomicU64::new(0);
+    let lines: Mutex<Vec<(u64, String)>> = Mutex::new(vec![]);
+    std::thread::scope(|s| {
+        for _ in 0..workers.max(1) {
+            s.spawn(|| {
+                exec::install_logger();
+                let mut local = vec![];
+                loop {
+                    let n = next.fetch_add(1, Ordering::Relaxed);
+                    if n >= count {
+                        break;
+                    }
+                    match gen_for(&def, verif_seed, n) {
+                        Err(_) => local.push((n, "generr".to_string())),
+                        Ok(mut sc) => {
+                            sc.hash_seed = 0;
+                            let r = exec::run(&sc);
+                            local.push((n, format!("{:016x}", checks::outcome_digest(&r))));
+                        }
+                    }
+                }
+                lines.lock().unwrap().extend(local);
+            });
+        }
+    });
+    let mut v = lines.into_inner().unwrap();
+    v.sort();
+    let mut out = String::new();
+    for (n, d) in v {
+        out.push_str(&format!("{n} {d}\n"));
+    }
+    report(out.trim_end());
+    0
+}
+
+/// `sim c04-one <scenario.json>`: executes one scenario on three threads and prints one outcome line
+/// per execution (see `checks::outcome_text`).
+fn c04_one_cmd(path: &str) -> i32 {
+    let sc: Scenario = match std::fs::read_to_string(path).map_err(|e| e.to_string()).and_then(|s| serde_json::from_str(&s).map_err(|e| e.to_string())) {
+        Ok(s) => s,
+        Err(e) => {
+            eprintln!("harness: cannot read scenario {path}: {e}");
+            return 2;
+        }
+    };
+    for _ in 0..3 {
+        let sc = sc.clone();
+        let line = std::thread::spawn(move || {
+            exec::install_logger();
+            checks::outcome_text(&exec::run(&sc))
+        })
+        .join()
+        .unwrap_or_else(|_| "thread panicked".into());
+        report(&line);
+    }
+    0
 }
 
 /// `*` matches any (possibly empty) run of characters; everything else is literal.
